@@ -10,6 +10,9 @@
 //! * the generic admin contract's entry carries `Signature { public_key, signature }` where the
 //!   signature is an ed25519 signature over the host's payload (sha256 of the
 //!   `HashIdPreimage::SorobanAuthorization`) — or, for `sig != "good"`, something that is not one.
+//! `VERIF_DEBUG=1` prints the host's last diagnostic events of every failed call to stderr (that is how
+//! the two recorded deviations of the generic flavour were located: SACAddressMismatch for a context
+//! addressed to the admin contract itself, SACMissingFnParam for the amount of a genuine mint/clawback).
 #![allow(dead_code)]
 use std::collections::BTreeMap;
 
@@ -335,7 +338,7 @@ fn gen_generic(r: &mut StdRng, fb: &Fb, obs: &Value) -> Value {
     }
     let x = r.gen_range(0..100);
     let mut auth = extra_auth(r);
-    if foreign && r.gen_bool(0.3) {
+    if foreign && r.gen_bool(0.3) && !auth.contains(&"n".to_string()) {
         auth.push("n".into());
     }
     if x < 30 {
@@ -389,7 +392,7 @@ fn gen_wrapper(r: &mut StdRng, obs: &Value) -> Value {
         } else {
             pick(r, &ROLE_ACCOUNTS).to_string()
         };
-        if r.gen_bool(0.88) {
+        if r.gen_bool(0.88) && !auth.contains(&who) {
             auth.push(who.clone());
         }
         let h = *pick(r, &HOLDERS);
@@ -406,7 +409,7 @@ fn gen_wrapper(r: &mut StdRng, obs: &Value) -> Value {
     } else {
         let kind = *pick(r, &["grant", "grant", "revoke"]);
         let who = pick(r, &["a", "a", "a", "m", "b"]).to_string();
-        if r.gen_bool(0.88) {
+        if r.gen_bool(0.88) && !auth.contains(&who) {
             auth.push(who.clone());
         }
         let acct = if kind == "revoke" && !mgrs.is_empty() && r.gen_bool(0.8) { pick(r, &mgrs).clone() } else { pick(r, &ROLE_ACCOUNTS).to_string() };
